@@ -22,7 +22,9 @@ from common import Coverage, Driver, rng, shrink_list, violation
 # --------------------------------------------------------------------------- events
 IP_ALPHA = ["S1.0", "S1025.0", "N", "R0", "F1", "C", "X", "T", "D", "RC", "O0", "N+N@10"]
 # session establishment through the real code: genuine reconnects, reconnects against a replaying peer, old-session frames
-SESS = {"ip": ["S1.0", "N", "RR", "RC", "R0", "O0", "D"], "coap": ["S1.0", "N", "N4", "RR", "RC", "R0", "O0"]}
+SESS = {"ip": ["S1.0", "N", "RR", "RC", "R0", "O0", "D", "SX1.0"], "coap": ["S1.0", "N", "N4", "RR", "RC", "EPC", "EN", "ER0"]}
+# IP requests big enough for any size-dependent send path (64 KiB = 64 frames), cancelled at their first suspension point
+IP_BIG = ["SX65536.0", "S65536.0", "SX1.0", "S1.0", "N", "X"]
 # IP read segmentation: one TCP read = k complete frames + a prefix of the next (1 byte, 2 bytes, 10 bytes, all but
 # the last byte of the tag), the rest in a second read; replays / corrupted frames glued behind complete frames
 IP_SEG = ["S1.0", "N", "R0", "N@1", "N+N", "N+N@1", "N+N@2", "N+N@10", "N+N@-1", "N+R0@10", "N+C@2", "N+N+N@2"]
@@ -45,7 +47,7 @@ def parse_ev(t):
         # glued delivery (read segmentation): sub-events joined by "+", "@c" = the read is cut c bytes into the last frame
         body, _, cut = t.partition("@")
         return ("G", [parse_ev(x) for x in body.split("+")], int(cut) if cut else 0)
-    if t in ("N", "N4", "C", "X", "T", "TB", "D", "RC", "RD", "RR", "SUB", "UNS", "EN", "EC", "EM", "EU"):
+    if t in ("N", "N4", "C", "X", "T", "TB", "D", "RC", "RD", "RR", "EPC", "SUB", "UNS", "EN", "EC", "EM", "EU"):
         return (t, 0, 0)
     if t.startswith("EL"):
         return ("EL", int(t[2:]), 0)
@@ -56,6 +58,9 @@ def parse_ev(t):
         return ("ER", int(t[2:]), 0)
     if t.startswith("EF"):
         return ("EF", int(t[2:]), 0)
+    if t.startswith("SX"):
+        n, c = t[2:].split(".")
+        return ("SX", int(n), int(c))
     if t[0] == "S":
         n, c = t[1:].split(".")
         return ("S", int(n), int(c))
@@ -91,6 +96,10 @@ def MODEL_TOKEN(t, transport="ble"):
     does not touch the counters in the model: the datagram was accepted."""
     if t == "TB":
         return "T"
+    if t == "EPC":
+        # CoAP: mDNS reports a new address/port.  _async_endpoint_changed tears the session down (reconnect_soon);
+        # the pairing's next operation connects again: teardown + new pair-verify
+        return "RC"
     if t == "RR":
         # reconnect against a peer replaying a recorded pair-verify: BLE - the link dropped and no session came up;
         # IP / CoAP - the attempt fails and the connector goes on to set up a genuine new session
@@ -307,6 +316,23 @@ class VLoop(asyncio.SelectorEventLoop):
 
     def time(self):
         return self.vt
+
+    def run_in_executor(self, executor, func, *args):
+        """Deterministic executor: the job runs in a later loop iteration on this thread, and - like a job a
+        real worker thread has already picked up - it runs to the end even if the waiting task was cancelled."""
+        fut = self.create_future()
+
+        def job():
+            try:
+                res = func(*args)
+            except BaseException as exc:  # noqa
+                if not fut.done():
+                    fut.set_exception(exc)
+                return
+            if not fut.done():
+                fut.set_result(res)
+        self.call_soon(job)
+        return fut
 
     async def create_connection(self, protocol_factory, host=None, port=None, *, sock=None, **kw):
         """loop.create_connection(..., sock=<FakeSock>) as used by HomeKitConnection._connect_once"""
@@ -677,6 +703,13 @@ class IpRun:
         k, a, b = ev
         if k == "S":
             self.reqs.start(self.epoch, self.proto.send_bytes(b"x" * a))
+        elif k == "SX":
+            # the request is cancelled at its FIRST suspension point (one loop iteration = the task's first step)
+            t = self.reqs.start(self.epoch, self.proto.send_bytes(b"x" * a))
+            self.loop.call_soon(self.loop.stop)
+            self.loop.run_forever()
+            if not t.done():
+                t.cancel()
         elif k in ("N", "R", "F", "C", "O"):
             f = self.wire_frame(ev)
             if f is not None:
@@ -1088,10 +1121,37 @@ class CoapRun:
         self.pairing.subscriptions = set()
         self.pairing._ensure_connected = connected
         self.pairing.event_received = self._listener
+        self.pairing._shutdown = False
+        self.pairing._accessories_state = None
+        self.pairing.id = "00:00:00:00:00:01"
+        self.port = 5683
+        self.pairing.description = self.description()
         self.conn = cc.CoAPHomeKitConnection(self.pairing, "fe80::1", 5683)
         self.conn.info = types.SimpleNamespace(find_characteristic_by_iid=lambda iid: None)
         self.pairing.connection = self.conn
         self.new_session()
+
+    def description(self):
+        return types.SimpleNamespace(name="c06", id="00:00:00:00:00:01", address="fe80::1", addresses=["fe80::1"], port=self.port,
+                                     config_num=-1, state_num=1)
+
+    def endpoint_changed(self):
+        """'EPC': zeroconf reports the accessory on another port.  Real ZeroconfPairing._async_description_update ->
+        CoAPPairing._async_endpoint_changed (-> reconnect_soon in a background task).  The pairing's next operation
+        goes through _ensure_connected, which connects (new pair-verify) when the connection is not connected."""
+        self.port = 5684 if self.port == 5683 else 5683
+        self.loop.call_soon(self.pairing._async_description_update, self.description())   # a zeroconf callback, in the loop
+        settle(self.loop)
+        self.reqs.collect()
+        if not self.conn.is_connected:
+            return self.new_session()
+        if self.conn.enc_ctx is not self.ctx:
+            # the connection swapped its EncryptionContext without a pair-verify: follow it, the accessory does not move
+            self.ctx = self.conn.enc_ctx
+            for obj, d in ((self.ctx.recv_ctx, "a"), (self.ctx.send_ctx, "c"), (self.ctx.event_ctx, "e")):
+                TRACE.session_key(obj.key, d)
+            self.epoch = TRACE.keys[self.ctx.send_ctx.key][0]
+            self.sessions.append("moved")
 
     def connect(self, replay=False):
         cc = self.cc
@@ -1248,6 +1308,8 @@ class CoapRun:
         elif k == "T":
             if self.waiting():
                 self.stub.waiter.set_exception(NetworkError("timeout"))
+        elif k == "EPC":
+            self.endpoint_changed()
         elif k in ("RC", "RD", "RR"):
             if k == "RR":
                 self.replayed_session()
@@ -1423,10 +1485,14 @@ def random_histories(transport, r, count, maxlen):
                 if transport == "coap":
                     kinds += ["SUB", "UNS", "SUB+N", "UNS+N", "N4", "RR"]
                 if transport == "ip":
-                    kinds += ["RR"]
+                    kinds += ["RR", "SX"]
+                if transport == "coap":
+                    kinds += ["EPC", "EPC"]
                 k = r.choice(kinds)
                 if k == "S":
                     h.append(f"S{r.choice([0, 1, 30, 1024, 1025])}.{r.choice([0, 1])}")
+                elif k == "SX":
+                    h.append(f"SX{r.choice([1, 1, 1025, 2049, 65536])}.0")
                 elif k in ("W", "V"):
                     h.append(f"{k}{r.choice([0, 1, 30, 46, 70])}.{r.choice([0, 1])}.{r.choice([0, 0, 1, 2])}")
                 elif k in ("R", "O", "ER"):
@@ -1451,6 +1517,7 @@ DIRECTED = {
         SIX + ["S1.0", "R0", "S1.0", "R1"],                  # replay after the zero reset
         ["EN", "EN", "ER0", "EC", "ER1", "EN", "EF2", "EN"],
         # event processing fails after the datagram was decrypted (listener raises at the 2nd entry / bad 2nd value)
+        ["S1.0", "N", "EN", "EN", "EPC", "ER0", "ER1", "S1.0", "N", "EN", "S1.0", "EPC", "S1.0", "N"], ["S1.0", "T", "EPC", "S1.0", "N", "EPC", "EPC", "EN"],
         ["S1.0", "N", "S1.0", "N4", "S1.0", "S1.0", "N", "EN", "RC", "S1.0", "N"], ["S1.0", "S1.0", "N4", "R0", "RR", "S1.0", "N4"],
         ["EL1", "ER0", "EN"], ["EN", "EU", "ER1", "ER1", "EN"], ["EM", "EL0", "ER1", "ER0", "EN", "ER2"],
         # one session: subscribe, events, unsubscribe everything, subscribe again, replay the recorded events
@@ -1465,6 +1532,7 @@ DIRECTED = {
         ["S1.0", "N@2", "RC", "S1.0", "N+O0@10", "N"],
         # real session establishment: an attacker replays the recorded pair-verify on the next connection
         ["S1.0", "N", "RR", "S1.0", "R0", "N", "RR", "S1.0", "O0"],
+        ["S1.0", "SX65536.0", "S1.0", "N", "RC", "SX70000.0", "S2049.0", "N"], ["SX1.0", "S1.0", "RC", "S1.0", "SX1025.0"],
     ],
     "ble": [
         ["S30.1", "S1.0", "N", "N", "C", "S1.0", "RC", "S0.0", "X"],
@@ -1499,6 +1567,8 @@ def coq_event(t):
         return f"EReplay {int(t[2:])}"
     if t.startswith("EF"):
         return f"EFuture {int(t[2:])}"
+    if t.startswith("SX"):
+        return f"SendX {int(t[2:].split('.')[0])}"
     if t[0] == "S":
         n, c = t[1:].split(".")
         return f"Send {int(n)} {int(c)}"
@@ -1679,6 +1749,8 @@ def run(ctx):
             hists += list(exhaustive(seg_alpha, full_depth))
         if transport in SESS:
             hists += list(exhaustive(SESS[transport], full_depth))
+        if transport == "ip":
+            hists += list(exhaustive(IP_BIG, 3))
         if transport == "ble":
             hists += list(exhaustive(fault_alpha, 4))
         n_core = len(hists) - n_full
